@@ -183,6 +183,83 @@ def c11_dir(job, drv):
                 else:
                     if not healed:
                         wf["bad"].append([k, ename, "not-rewritten"])
+        # ---- a writer that is KILLED while writing: a real process dies (SIGKILL) after k bytes of the cache file ----
+        import signal as _signal
+        import threading as _threading
+        kw = {"kills": 0, "died_as_planned": 0, "bad": [], "examples": []}
+        if job.get("killed_writers", True):
+            kstride = stride * int(job.get("kill_factor", 8))
+            kks = [n for n in range(0, size) if n % S == rem and (n // S) % kstride == 0]
+            if rem == 0:
+                kks = sorted(set(kks) | {0, 1, size // 2, size - 1})
+            if job.get("kill_only") is not None:
+                kks = [k for k in job["kill_only"] if k < size]
+            alarm_was, drv._alarm_ok = drv._alarm_ok, False
+            hangs = 0
+
+            def timed(key, limit=4.0):
+                box = {}
+
+                def body():
+                    rq = protokeys[key]
+                    box["r"] = drv.serve_once(w.config, drv.s2b(rq["data"]), tls=rq["tls"])
+                th = _threading.Thread(target=body, daemon=True)
+                th.start()
+                th.join(limit)
+                if th.is_alive():
+                    return None, {"exc": "still running after %.0f s" % limit, "log": []}
+                r = box.get("r") or {"out": "", "exc": "no result", "log": []}
+                return h.mask(drv.s2b(r["out"])), r
+
+            try:
+                for idx, k in enumerate(kks):
+                    if hangs >= 2:
+                        break
+                    if os.path.exists(cachepath):
+                        os.unlink(cachepath)
+                    pid = os.fork()
+                    if pid == 0:
+                        try:
+                            import pygopherd.handlers.base as hbase
+                            orig = hbase.VFS_Real.open
+
+                            class Dying(h.FaultyFile):
+                                def write(self, data):
+                                    self.real.write(data[:self.room])
+                                    self.real.flush()
+                                    os.kill(os.getpid(), _signal.SIGKILL)
+
+                            def open_(vfs, selector, mode, errors=None):
+                                f = orig(vfs, selector, mode, errors=errors)
+                                if selector.endswith("/.cache.pygopherd.dir") and "w" in mode:
+                                    return Dying(f, k, 0)
+                                return f
+
+                            hbase.VFS_Real.open = open_
+                            rq = protokeys[seq[k % len(seq)]]
+                            drv.serve_once(w.config, drv.s2b(rq["data"]), tls=rq["tls"])
+                        finally:
+                            os._exit(0)
+                    _, status = os.waitpid(pid, 0)
+                    kw["kills"] += 1
+                    if os.WIFSIGNALED(status):
+                        kw["died_as_planned"] += 1
+                    for step in ("first request after the writer was killed", "second request"):
+                        key = seq[(k + 3 + len(step)) % len(seq)]
+                        out, r = timed(key)
+                        if out is None or out != refs[key] or r["exc"]:
+                            hang = out is None
+                            hangs += hang
+                            cls_ = "hang" if hang else ("empty" if not out else "wrong")
+                            kw["bad"].append([k, cls_])
+                            if sum(1 for e in kw["examples"] if e["class"] == cls_) < 2:
+                                left = sorted(fn for fn in os.listdir(os.path.dirname(cachepath)) if fn.startswith(".cache"))
+                                kw["examples"].append({"writer_killed_after_bytes": k, "step": step, "protocol": key, "class": cls_,
+                                                       "response_latin1": drv.b2s((out or b"")[:300]), "expected_latin1": drv.b2s(refs[key][:300]),
+                                                       "error": r["exc"], "cache_files_left_by_the_dead_writer": left})
+                            break
+            finally:
+                drv._alarm_ok = alarm_was
         prefix_fail = {k: list(v) for k, v in fails.items()}
         not_restored_prefix = list(not_restored)
         first = rem == 0
@@ -247,7 +324,7 @@ def c11_dir(job, drv):
             resource.setrlimit(resource.RLIMIT_AS, (soft, hard))
         return {"size": size, "tested": tested, "range": [lo, hi], "prefix_fail_ranges": prefix_fail,
                 "prefix_fail_counts": prefix_counts, "others": others, "not_restored": not_restored, "first_shard": first, "mod": [S, rem],
-                "write_faults": wf, "followup_bad": followup_bad, "followups": followups, "examples": examples, "secs": round(time.time() - t0, 2),
+                "write_faults": wf, "killed_writers": kw, "followup_bad": followup_bad, "followups": followups, "examples": examples, "secs": round(time.time() - t0, 2),
                 "cache_latin1": drv.b2s(B) if job.get("return_cache") else None,
                 "pickle": {"single_pickle_of_a_list": single_pickle, "strict_prefixes": size, "undecodable": undecodable, "decodable_prefixes": decodable_prefixes[:10],
                            "exception_types": exc_types, "roundtrip_identity": roundtrip, "zero_filled_fails": zero_fails},
